@@ -129,10 +129,123 @@ func genExpr(t *rapid.T, depth int) stmt.Expr {
 	}
 }
 
+// ---- size class: many nodes in one tree ------------------------------------------------------------
+//
+// genExpr bounds the DEPTH, and with it the size (a few dozen nodes). genWideExpr builds one tree
+// with n terms, n from a ladder up to 100, in the shapes producers in /repo build:
+//
+//	rightChain : app/broker/api/prometheus/util.go makeCondition/walkMatcher: one EqualsExpr per label
+//	             matcher, hung into a right-deep chain of BinaryExpr
+//	leftChain  : what the listener builds for `a or b or c ...` / `f0+f1+f2 ...`
+//	balanced   : a balanced binary tree over the terms (log n levels)
+//	call       : one CallExpr with n params
+//	in         : one InExpr with n values
+//	nest       : n wrappers (paren / not / selectItem / orderBy) around one term
+//
+// terms are small trees of genExpr (depth 1, sometimes 2).
+var wideExprShapes = []string{"rightChain", "rightChain", "leftChain", "leftChain", "balanced", "call", "in", "nest"}
+
+var wideExprLadder = []int{2, 8, 16, 31, 32, 33, 34, 48, 63, 64, 65, 66, 80, 100}
+
+func genWideExpr(t *rapid.T) (stmt.Expr, string) {
+	shape := rapid.SampledFrom(wideExprShapes).Draw(t, "wideShape")
+	n := rapid.SampledFrom(wideExprLadder).Draw(t, "wideN")
+	term := func() stmt.Expr {
+		if rapid.IntRange(0, 7).Draw(t, "termDeep") == 0 {
+			return genExpr(t, 2)
+		}
+		return genExpr(t, 1)
+	}
+	op := func() stmt.BinaryOP {
+		// makeCondition uses ADD for every link; parsed conditions use AND/OR
+		return rapid.SampledFrom([]stmt.BinaryOP{stmt.ADD, stmt.AND, stmt.OR, stmt.AND, stmt.SUB, stmt.MUL}).Draw(t, "chainOp")
+	}
+	switch shape {
+	case "rightChain":
+		sameOp := rapid.Bool().Draw(t, "sameOp")
+		first := op()
+		terms := make([]stmt.Expr, n)
+		for i := range terms {
+			if sameOp { // the prometheus shape: equals filters only
+				terms[i] = &stmt.EqualsExpr{Key: genString(t, "key"), Value: genString(t, "value")}
+			} else {
+				terms[i] = term()
+			}
+		}
+		e := terms[n-1]
+		for i := n - 2; i >= 0; i-- {
+			o := first
+			if !sameOp {
+				o = op()
+			}
+			e = &stmt.BinaryExpr{Left: terms[i], Operator: o, Right: e}
+		}
+		return e, shape
+	case "leftChain":
+		e := term()
+		for i := 1; i < n; i++ {
+			e = &stmt.BinaryExpr{Left: e, Operator: op(), Right: term()}
+		}
+		return e, shape
+	case "balanced":
+		var build func(k int) stmt.Expr
+		build = func(k int) stmt.Expr {
+			if k <= 1 {
+				return term()
+			}
+			return &stmt.BinaryExpr{Left: build(k / 2), Operator: op(), Right: build(k - k/2)}
+		}
+		return build(n), shape
+	case "call":
+		c := &stmt.CallExpr{FuncType: rapid.SampledFrom(allFuncTypes).Draw(t, "funcType")}
+		for i := 0; i < n; i++ {
+			c.Params = append(c.Params, term())
+		}
+		return c, shape
+	case "in":
+		e := &stmt.InExpr{Key: genString(t, "key")}
+		for i := 0; i < n; i++ {
+			e.Values = append(e.Values, genString(t, "value"))
+		}
+		return e, shape
+	default:
+		e := term()
+		for i := 0; i < n; i++ {
+			switch rapid.IntRange(0, 5).Draw(t, "wrapper") {
+			case 0:
+				e = &stmt.NotExpr{Expr: e}
+			case 1:
+				e = &stmt.SelectItem{Expr: e, Alias: genString(t, "alias")}
+			case 2:
+				e = &stmt.OrderByExpr{Expr: e, Desc: rapid.Bool().Draw(t, "desc")}
+			default:
+				e = &stmt.ParenExpr{Expr: e}
+			}
+		}
+		return e, "nest"
+	}
+}
+
+// wideExprPercent of the directly built trees / statements carry one wide tree.
+const wideExprPercent = 3
+
+func drawWide(t *rapid.T) bool {
+	u := rapid.Uint64().Draw(t, "wide")
+	return u != 0 && mix64(u)%100 < wideExprPercent
+}
+
 func TestExprTreeRoundTrip(t *testing.T) {
 	rapid.Check(t, func(t *rapid.T) {
-		depth := rapid.SampledFrom([]int{1, 2, 3, 3, 4, 4, 5, 5, 6}).Draw(t, "depth")
-		e := genExpr(t, depth)
+		var e stmt.Expr
+		var sizeClass []string
+		if drawWide(t) {
+			var shape string
+			e, shape = genWideExpr(t)
+			sizeClass = []string{"wide=" + shape, "wide:any"}
+		} else {
+			depth := rapid.SampledFrom([]int{1, 2, 3, 3, 4, 4, 5, 5, 6}).Draw(t, "depth")
+			e = genExpr(t, depth)
+		}
 		checkExprWire(t, "expression tree", e)
 		kinds := map[string]bool{}
 		nodeKinds(e, kinds)
@@ -144,8 +257,14 @@ func TestExprTreeRoundTrip(t *testing.T) {
 			}
 		}
 		data := stmt.Marshal(e)
-		ev.Case("TestExprTreeRoundTrip", string(data), d >= 3 && nKinds >= 3,
-			append(sortedKeys(kinds, "node="), fmt.Sprintf("depth=%d", d)), map[string]any{"json": string(data), "depth": d})
+		dl := fmt.Sprintf("depth=%d", d)
+		if d > 12 {
+			dl = "depth>12"
+		}
+		classes := append(sortedKeys(kinds, "node="), dl)
+		classes = append(classes, sizeClass...)
+		classes = append(classes, sizeLabels(exprNodes(e), exprFanout(e))...)
+		ev.Case("TestExprTreeRoundTrip", string(data), d >= 3 && nKinds >= 3, classes, map[string]any{"json": string(data), "depth": d})
 	})
 }
 
@@ -166,7 +285,22 @@ func genSeconds(t *rapid.T, label string) timeutil.Interval {
 func TestPlannedStatementRoundTrip(t *testing.T) {
 	rapid.Check(t, func(t *rapid.T) {
 		depth := rapid.SampledFrom([]int{1, 2, 3, 4, 5}).Draw(t, "depth")
+		// size class: one slot of the statement is wide (a wide tree as condition / having / first
+		// select item / first order by item, or a long select / order by / group by list)
+		wideSlot := ""
+		if drawWide(t) {
+			wideSlot = rapid.SampledFrom([]string{"cond", "cond", "having", "nSelect", "nOrderBy", "selectList", "orderByList", "groupByList"}).Draw(t, "wideSlot")
+		}
+		var sizeClass []string
+		wideTree := func() stmt.Expr {
+			e, shape := genWideExpr(t)
+			sizeClass = []string{"wide=" + wideSlot + "/" + shape, "wide:any"}
+			return e
+		}
 		optExpr := func(label string) stmt.Expr {
+			if label == wideSlot {
+				return wideTree()
+			}
 			if rapid.IntRange(0, 3).Draw(t, label) == 0 {
 				return nil
 			}
@@ -174,6 +308,23 @@ func TestPlannedStatementRoundTrip(t *testing.T) {
 		}
 		exprList := func(label string) []stmt.Expr {
 			n := rapid.SampledFrom([]int{0, 0, 1, 1, 2, 3}).Draw(t, label)
+			if label == wideSlot {
+				// the first entry is the wide tree
+				out := []stmt.Expr{wideTree()}
+				for i := 1; i < n; i++ {
+					out = append(out, genExpr(t, depth))
+				}
+				return out
+			}
+			if (label == "nSelect" && wideSlot == "selectList") || (label == "nOrderBy" && wideSlot == "orderByList") {
+				n = rapid.SampledFrom(wideExprLadder).Draw(t, "wideN")
+				sizeClass = []string{"wide=" + wideSlot, "wide:any"}
+				var out []stmt.Expr
+				for i := 0; i < n; i++ {
+					out = append(out, genExpr(t, rapid.IntRange(1, 2).Draw(t, "entryDepth")))
+				}
+				return out
+			}
 			if n == 0 {
 				if rapid.Bool().Draw(t, label+"EmptyNotNil") {
 					return []stmt.Expr{}
@@ -199,7 +350,9 @@ func TestPlannedStatementRoundTrip(t *testing.T) {
 			checkMetaWire(t, "metadata statement", m)
 			payload, _ := m.MarshalJSON()
 			d := exprDepth(m.Condition)
-			ev.Case("TestPlannedStatementRoundTrip", string(payload), d >= 3, []string{"metadata", fmt.Sprintf("depth=%d", d)}, map[string]any{"payload": string(payload)})
+			classes := append([]string{"metadata", depthLabel(d)}, sizeClass...)
+			classes = append(classes, sizeLabels(exprNodes(m.Condition), exprFanout(m.Condition))...)
+			ev.Case("TestPlannedStatementRoundTrip", string(payload), d >= 3, classes, map[string]any{"payload": string(payload)})
 			return
 		}
 		q := &stmt.Query{
@@ -218,7 +371,12 @@ func TestPlannedStatementRoundTrip(t *testing.T) {
 			OrderByItems:    exprList("nOrderBy"),
 			Limit:           rapid.IntRange(0, math.MaxInt32).Draw(t, "limit"),
 		}
-		for i, n := 0, rapid.SampledFrom([]int{0, 0, 1, 2, 3}).Draw(t, "nGroupBy"); i < n; i++ {
+		nGroupBy := rapid.SampledFrom([]int{0, 0, 1, 2, 3}).Draw(t, "nGroupBy")
+		if wideSlot == "groupByList" {
+			nGroupBy = rapid.SampledFrom(wideExprLadder).Draw(t, "wideN")
+			sizeClass = []string{"wide=" + wideSlot, "wide:any"}
+		}
+		for i := 0; i < nGroupBy; i++ {
 			q.GroupBy = append(q.GroupBy, genString(t, "groupBy"))
 		}
 		if q.GroupBy == nil && rapid.Bool().Draw(t, "groupByEmptyNotNil") {
@@ -234,7 +392,15 @@ func TestPlannedStatementRoundTrip(t *testing.T) {
 				nk++
 			}
 		}
-		ev.Case("TestPlannedStatementRoundTrip", string(payload), d >= 3 && nk >= 3,
-			[]string{"query", fmt.Sprintf("depth=%d", d), fmt.Sprintf("fieldsSet=%d", nk)}, map[string]any{"payload": string(payload)})
+		classes := append([]string{"query", depthLabel(d), fmt.Sprintf("fieldsSet=%d", nk)}, sizeClass...)
+		classes = append(classes, sizeLabels(querySize(q))...)
+		ev.Case("TestPlannedStatementRoundTrip", string(payload), d >= 3 && nk >= 3, classes, map[string]any{"payload": string(payload)})
 	})
+}
+
+func depthLabel(d int) string {
+	if d > 12 {
+		return "depth>12"
+	}
+	return fmt.Sprintf("depth=%d", d)
 }
